@@ -27,6 +27,19 @@ Policy(m, d, r, h, c, s, ow, co, hasdisk) ==
     ELSE [mem |-> Put(m, h, old), disk |-> d, runs |-> r,
           outcome |-> "reconstructed", entry |-> old, ran |-> FALSE]
 
+(* update_from_tree(tree, overwrite=mode): an answer handed in from outside.  Stored iff the fingerprint is missing, or
+   mode = "yes", or mode = "improved" and the new score is strictly better; the comparison only looks at the entry
+   (mode "improved" loads it into memory) *)
+UpdatePolicy(m, d, r, h, c, s, mode, hasdisk) ==
+    LET present == h \in DOMAIN m \/ (hasdisk /\ h \in DOMAIN d)
+        old     == IF h \in DOMAIN m THEN m[h] ELSE d[h]
+        new     == [creator |-> c, run |-> r + 1, score |-> s]
+        store   == ~present \/ mode = "yes" \/ (mode = "improved" /\ s < old.score)
+    IN
+    IF store THEN [mem |-> Put(m, h, new), disk |-> IF hasdisk THEN Put(d, h, new) ELSE d, runs |-> r + 1,
+                   stored |-> TRUE, entry |-> new]
+    ELSE [mem |-> IF mode = "improved" THEN Put(m, h, old) ELSE m, disk |-> d, runs |-> r, stored |-> FALSE, entry |-> old]
+
 (* ---- fingerprints as canonical forms ----------------------------------- *)
 (* a contraction is [inputs: Seq(Seq(ix)), output: Seq(ix), dim: function ix -> size]   *)
 BagOf(s) == [x \in {s[k] : k \in DOMAIN s} |-> Cardinality({k \in DOMAIN s : s[k] = x})]
